@@ -59,6 +59,12 @@ var props = map[string]propCfg{
 		Required: []string{"success_assertion_checked", "issueinstant_checked_at_exact_instant", "advance_while_parked", "key_rotated"}},
 	"C04": {Level: "exploration", QuickRuns: 1500, QuickBud: 22 * time.Second, ThorRuns: 200000, ThorBud: 10 * time.Minute,
 		Required: []string{"enveloped_signature_checked", "redirect_signature_checked", "metadata_signature_checked", "key_rotated"}},
+	"C05": {Level: "exploration", QuickRuns: 1500, QuickBud: 22 * time.Second, ThorRuns: 200000, ThorBud: 10 * time.Minute,
+		Required: []string{"sso_accepted", "accepted_while_signing_required", "accepted_with_valid_signature", "signed_request_rejected", "tamper_wrap", "tamper_sig_flip", "tamper_strip_sig", "sp_reregistered"}},
+	"C06": {Level: "exploration", QuickRuns: 1500, QuickBud: 22 * time.Second, ThorRuns: 200000, ThorBud: 10 * time.Minute,
+		Required: []string{"sso_accepted", "nonconformant_rejected", "now_equals_notonorafter", "now_equals_notbefore", "sp_skew", "delay"}},
+	"C07": {Level: "exploration", QuickRuns: 1500, QuickBud: 22 * time.Second, ThorRuns: 200000, ThorBud: 10 * time.Minute,
+		Required: []string{"conformant_sso_accepted", "conformant_slo_accepted", "conformant_attrq_accepted"}},
 	"C08": {Level: "exploration", QuickRuns: 1500, QuickBud: 22 * time.Second, ThorRuns: 200000, ThorBud: 10 * time.Minute,
 		Required: []string{"sso_persisted", "sso_not_persisted", "storage_err", "body_error_at"}},
 }
